@@ -264,7 +264,7 @@ func C02() *engine.Check {
 	return &engine.Check{
 		Property: "C02",
 		Level:    "model_checking",
-		Subs:     []*engine.Sub{c02Sub("command-attenuation", "sound", 4, 5), c02SeqSub("sound"), c02LoopSub("sound"), c02WsSub("sound"), clockSub("C02"), longChainSub("C02")},
+		Subs:     []*engine.Sub{c02Sub("command-attenuation", "sound", 4, 5), c02SeqSub("sound"), c02LoopSub("sound"), c02WsSub("sound"), clockSub("C02"), longChainSub("C02"), authConcSub("C02"), concRaceSub("C02")},
 		Assumptions: []string{
 			"principals are aligned correctly, policies empty, no time bounds: only the command rule can fire",
 			"reference cover relation = segment-prefix order (refmodel.CmdCovers), independent of Command.Covers",
